@@ -94,8 +94,10 @@ func SymOf(kind string, names []string) string {
 	return kind + ":" + strings.Join(names, ",")
 }
 
-func RefGNFA(p *Prog) (*GNFA, map[string]bool) {
-	n := BuildNFA(p, false)
+// RefGNFA builds the reference automaton over abstract symbols; regexGroups selects how option groups appear: as one
+// "grp" symbol (the implementation's group matcher) or as a loop over "opt" symbols ((o1|..|on)+)
+func RefGNFA(p *Prog, regexGroups bool) (*GNFA, map[string]bool) {
+	n := BuildNFA(p, regexGroups)
 	g := &GNFA{N: len(n.tr), Start: n.Start}
 	g.Eps = make([][]int, g.N)
 	g.Tr = make([]map[string][]int, g.N)
